@@ -99,6 +99,7 @@ impl Clock for CountingClock {
 /// zero output: never repeats within 2^64 draws and never yields 0.
 pub struct CounterRng {
     next: AtomicU64,
+    mixed: bool,
 }
 
 fn mix64(x: u64) -> u64 {
@@ -110,13 +111,17 @@ fn mix64(x: u64) -> u64 {
 
 impl CounterRng {
     pub fn new(seed: u64) -> Self {
-        CounterRng { next: AtomicU64::new(seed) }
+        CounterRng { next: AtomicU64::new(seed), mixed: true }
+    }
+
+    pub fn sequential(seed: u64) -> Self {
+        CounterRng { next: AtomicU64::new(seed), mixed: false }
     }
 
     fn word(&self) -> u64 {
         loop {
             let k = self.next.fetch_add(1, Ordering::Relaxed);
-            let v = mix64(k);
+            let v = if self.mixed { mix64(k) } else { k };
             if v != 0 {
                 return v;
             }
@@ -143,6 +148,7 @@ pub fn build<C: TCtxt>(rng: RngKind, ctxt: C) -> (Rt<C>, Recorder) {
         .with_clock(CountingClock(AtomicU64::new(0)))
         .with_rng(match rng {
             RngKind::Counter(seed) => Some(CounterRng::new(seed)),
+            RngKind::Sequential(seed) => Some(CounterRng::sequential(seed)),
             RngKind::Empty => None,
         });
     (rt, rec)
